@@ -719,6 +719,30 @@ theorem write_file_at_path (conv : Conv C) (outdir : String) (mode : WMode) (w :
   ⟨_, _, writeVal_text conv outdir mode w v c d fn fe p hd hw hn, rfl, rfl, rfl, rfl,
     writeCore_content mode p c w v.out.changed, fun _ h => writeCore_frame mode p c w v.out.changed h⟩
 
+/-- "If `context.output.write` is `False` a value will not be written. Not written values pass unchanged": also
+values whose data is neither a string nor an object with a `write` method — the world is not touched -/
+theorem write_not_writable_passes (conv : Conv C) (outdir : String) (mode : WMode) (w : World C) (v : Val C)
+    (h : v.noWrite = true ∨ ∃ ps, v.data = .many ps) : writeVal conv outdir mode w v = .ok (w, v) := by
+  unfold writeVal
+  rcases h with h | ⟨ps, h⟩
+  · rw [h]; rfl
+  · cases hn : v.noWrite
+    · simp only [Bool.false_eq_true, if_false, h]
+    · rfl
+
+/-- an object with a `write` method writes itself (whatever the mode and the existing file) and
+`output.changed` is `True` -/
+theorem write_writer_changed (conv : Conv C) (outdir : String) (mode : WMode) (w : World C) (v : Val C) (c : C)
+    (d fn fe p : String) (hd : v.data = .writer c) (hw : v.noWrite = false)
+    (hn : wmfCore outdir "output" v.out.dirname v.out.filename v.out.fileext v.out.filetype = .ok (d, fn, fe, p)) :
+    ∃ w' v', writeVal conv outdir mode w v = .ok (w', v') ∧ v'.data = .path p ∧ v'.out.changed = some true ∧
+      HasContent w'.fs p c ∧ (∀ q, q ≠ p → w'.fs q = w.fs q) := by
+  refine ⟨w.put p c (.write p), { v with data := .path p, out := { v.out with filename := some fn, fileext := some fe, filepath := some p, changed := some true } }, ?_, rfl, rfl, ⟨_, put_fs_eq _ _ _ _, rfl⟩, fun q h => put_fs_ne _ _ _ h⟩
+  unfold writeVal wMakeFilename
+  rw [hd, hw]
+  simp only [hn]
+  rfl
+
 /-- an empty `output.filename` is a `LenaRuntimeError` -/
 theorem write_empty_filename (outdir : String) (dn fe ft : Option String) :
     wmfCore outdir "output" dn (some "") fe ft = .error .lenaRuntimeError := by
